@@ -2203,8 +2203,13 @@ class Side:
                     vert.alpha,
                     vert.triangle_a,
                     vert.triangle_b,
+                    vert.multi_blend,
+                    vert.multi_alpha,
+                    [col.copy() for col in vert.multi_colors] if vert.multi_colors is not None else None,
                 ) for vert in self._disp_verts
             ]
+            if self.disp_allowed_vert is not None:
+                new_side.disp_allowed_vert = Array('i', self.disp_allowed_vert)
         if self.strata_points is not None:
             new_side.strata_points = [point.copy() for point in self.strata_points]
         return new_side
